@@ -23,7 +23,7 @@ void r_history_entry_add(void)
     for (int i = 1; i >= 0; i--)
         if (i < in_n) {
             e[i] = calloc(1, sizeof(fsg_hist_entry_t)); SSW_ASSUME(e[i] != NULL);
-            e[i]->score = in_score[i]; e[i]->rc = i == 0 ? rc0 : rc1; e[i]->frame = 5;
+            e[i]->score = in_score[i]; e[i]->rc = i == 0 ? rc0 : rc1; e[i]->frame = 5; e[i]->pred = 7 + i; e[i]->lc = 1;
             row[0] = glist_add_ptr(row[0], e[i]);
         }
     /* best score on offer for witness bit k before the call */
@@ -34,14 +34,22 @@ void r_history_entry_add(void)
     link.to_state = 0;
     fsg_history_entry_add(&h, &link, 5, in_newscore, 3, 0, rcn);
     /* afterwards */
-    int after = -100000, prev = 1, cnt = 0;
+    int after = -100000, prev = 1, cnt = 0, nnew = 0;
     for (gnode_t *gn = row[0]; gn && cnt < 4; gn = gnode_next(gn), cnt++) {
         fsg_hist_entry_t *x = gnode_ptr(gn);
         SSW_ASSERT(x->score <= prev, "the list stays sorted by score, best first");
         prev = x->score;
         SSW_ASSERT((x->rc.bv[0] | x->rc.bv[1] | x->rc.bv[2] | x->rc.bv[3]) != 0, "no entry with an empty right-context set is kept");
         if (has_bit(&x->rc, in_k) && x->score > after) after = x->score;
+        /* what the word-arc / null-arc contracts of C01 hand over is what is stored: the new entry carries exactly the given
+         * arc, frame, score, predecessor and last phone; entries already there keep theirs (only their context set shrinks) */
+        if (x != e[0] && x != e[1]) {
+            nnew++;
+            SSW_ASSERT(x->fsglink == &link && x->frame == 5 && x->score == in_newscore && x->pred == 3 && x->lc == 0, "the new entry stores the arc, frame, score, predecessor and last phone it was given");
+        } else
+            SSW_ASSERT(x->fsglink == NULL && x->frame == 5 && x->pred == (x == e[0] ? 7 : 8) && x->lc == 1 && x->score == (x == e[0] ? in_score[0] : in_score[1]), "an existing entry keeps its arc, frame, score and predecessor");
     }
+    SSW_ASSERT(nnew <= 1, "at most one new entry");
     SSW_ASSERT(cnt <= in_n + 1, "at most one entry is added");
     SSW_ASSERT(after == best, "for every right context the best score on offer is kept (an entry is dropped only if dominated)");
     VERIF_CANARY();
